@@ -11,8 +11,12 @@ Inductive case :=
     (* tree_class.build_random_tree(structure_def) with random/fabulist reading s;
        rk = a rank of the node types, proposed by the harness *)
 | CCyclic (d : sdef) (fuel : Z) (s : stream)
-| CCtor (r : rnd).
+| CCtor (r : rnd)
     (* constructing the randomizer: accepted, or AssertionError *)
+| CSeq (l : list case).
+    (* a session: several builds from ONE definition object / the same randomizer objects,
+       re-configured in between.  The model is a pure function of the configuration at call
+       time: each step is evaluated on its own *)
     (* D39: cyclic relation graph; the model's tree is as high as the fuel allows *)
 
 Definition sx_q (q : Q) : sx := let r := Qred q in L [A 3; A (Qnum r); A (Zpos (Qden r))].
@@ -46,8 +50,9 @@ Definition in_domain (d : sdef) (fuel : Z) (rk : list (text * Z)) : bool :=
   let rkf := rk_of (map (fun p => (fst p, Z.to_nat (snd p))) rk) in
   def_wf2b d && rank_okb d rkf && Nat.ltb (rkf K_root) (Z.to_nat fuel) && mem K_root (d_rels d).
 
-Definition run20 (c : case) : sx :=
+Fixpoint run20 (c : case) : sx :=
   match c with
+  | CSeq l => L (map run20 l)
   | CCtor r => L [A (-3); sx_bool (ctor_ok r)]
   | CBuild typed d fuel rk s =>
       if negb (def_accepted d) then L [A (-2); A 6] else       (* AssertionError *)
